@@ -378,3 +378,38 @@ Theorem C01_render_inline_never_raises :
   forall src env e, render_inline_md cfg rf cf lt src env <> Raise e.
 Proof. exact render_inline_md_no_raise. Qed.
 Print Assumptions C01_render_inline_never_raises.
+
+(* ---- the inner scans of the inline model: no answer depends on a fuel constant ------------------ *)
+From MD Require Import Lemmas.InlineFuel.
+(* companion of the block-model theorems above; the opener search of balance_pairs needs the jump
+   table invariant (0 <= jumps[i] <= i) that C01_process_delimiters_safe maintains *)
+Theorem C01_inline_run_len_fuel : forall f1 f2 src pos mx m, (Z.to_nat (mx - pos) < f1)%nat -> (Z.to_nat (mx - pos) < f2)%nat -> run_len f1 src pos mx m = run_len f2 src pos mx m.
+Proof. exact run_len_fuel. Qed.
+Print Assumptions C01_inline_run_len_fuel.
+Theorem C01_inline_skip_sp_fwd_fuel : forall f1 f2 src pos mx, (Z.to_nat (mx - pos) < f1)%nat -> (Z.to_nat (mx - pos) < f2)%nat -> skip_sp_fwd f1 src pos mx = skip_sp_fwd f2 src pos mx.
+Proof. exact skip_sp_fwd_fuel. Qed.
+Print Assumptions C01_inline_skip_sp_fwd_fuel.
+Theorem C01_inline_ws_tail_fuel : forall f1 f2 pending ws, (Z.to_nat ws < f1)%nat -> (Z.to_nat ws < f2)%nat -> ws_tail f1 pending ws = ws_tail f2 pending ws.
+Proof. exact ws_tail_fuel. Qed.
+Print Assumptions C01_inline_ws_tail_fuel.
+Theorem C01_inline_skip_ws_nl_i_fuel : forall f1 f2 src pos mx, (Z.to_nat (mx - pos) < f1)%nat -> (Z.to_nat (mx - pos) < f2)%nat -> skip_ws_nl_i f1 src pos mx = skip_ws_nl_i f2 src pos mx.
+Proof. exact skip_ws_nl_i_fuel. Qed.
+Print Assumptions C01_inline_skip_ws_nl_i_fuel.
+Theorem C01_inline_autolink_end_fuel : forall f1 f2 src pos mx, (Z.to_nat (mx - pos) < f1)%nat -> (Z.to_nat (mx - pos) < f2)%nat -> autolink_end f1 src pos mx = autolink_end f2 src pos mx.
+Proof. exact autolink_end_fuel. Qed.
+Print Assumptions C01_inline_autolink_end_fuel.
+Theorem C01_inline_count_s_close_fuel : forall f1 f2 tokens j, (Z.to_nat (len tokens - j) < f1)%nat -> (Z.to_nat (len tokens - j) < f2)%nat -> count_s_close f1 tokens j = count_s_close f2 tokens j.
+Proof. exact count_s_close_fuel. Qed.
+Print Assumptions C01_inline_count_s_close_fuel.
+Theorem C01_inline_st_pass1_fuel : forall f1 f2 ds tokens i lone, (Z.to_nat (len ds - i) < f1)%nat -> (Z.to_nat (len ds - i) < f2)%nat -> st_pass1 f1 ds tokens i lone = st_pass1 f2 ds tokens i lone.
+Proof. exact st_pass1_fuel. Qed.
+Print Assumptions C01_inline_st_pass1_fuel.
+Theorem C01_inline_em_pass_fuel : forall f1 f2 ds tokens i, (Z.to_nat (i + 1) < f1)%nat -> (Z.to_nat (i + 1) < f2)%nat -> em_pass f1 ds tokens i = em_pass f2 ds tokens i.
+Proof. exact em_pass_fuel. Qed.
+Print Assumptions C01_inline_em_pass_fuel.
+Theorem C01_inline_find_opener_d_fuel : forall ds jumps closer c, JI jumps c -> c <= len ds -> forall f1 f2 o mn, o < c -> -1 <= mn -> (Z.to_nat (o - mn) < f1)%nat -> (Z.to_nat (o - mn) < f2)%nat -> find_opener_d f1 ds jumps closer o mn = find_opener_d f2 ds jumps closer o mn.
+Proof. exact find_opener_d_fuel. Qed.
+Print Assumptions C01_inline_find_opener_d_fuel.
+Theorem C01_inline_pd_loop_fuel : forall f1 f2 ds jumps ob c h lt, (Z.to_nat (len ds - c) < f1)%nat -> (Z.to_nat (len ds - c) < f2)%nat -> pd_loop f1 ds jumps ob c h lt = pd_loop f2 ds jumps ob c h lt.
+Proof. exact pd_loop_fuel. Qed.
+Print Assumptions C01_inline_pd_loop_fuel.
